@@ -7,6 +7,7 @@ import (
 	"fmt"
 	"net/http"
 	"regexp"
+	"sort"
 	"strconv"
 	"strings"
 	"unicode/utf8"
@@ -71,6 +72,10 @@ type parsedReply struct {
 	framed  bool
 	headLen int
 	bodyLen int
+	header  http.Header // as net/http (and so OnProxyConnectResponse) reads it
+	declLen int64       // Response.ContentLength
+	body    []byte
+	xfe     []string // the upstream proxy's own X-Forwarder-Error values
 }
 
 func parseReply(b []byte) parsedReply {
@@ -78,10 +83,50 @@ func parseReply(b []byte) parsedReply {
 	if err != nil || res == nil || !res.Complete || res.Status < 100 {
 		return parsedReply{}
 	}
-	if _, err := http.ReadResponse(bufio.NewReader(bytes.NewReader(b)), nil); err != nil {
+	hr, err := http.ReadResponse(bufio.NewReader(bytes.NewReader(b)), nil)
+	if err != nil {
 		return parsedReply{}
 	}
-	return parsedReply{ok: true, status: res.Status, framed: res.Proto == "HTTP/1.1" && res.Framing == "cl", headLen: len(res.HeadBytes), bodyLen: len(res.Body)}
+	return parsedReply{ok: true, status: res.Status, framed: res.Proto == "HTTP/1.1" && res.Framing == "cl", headLen: len(res.HeadBytes), bodyLen: len(res.Body),
+		header: hr.Header, declLen: hr.ContentLength, body: res.Body, xfe: res.Values("X-Forwarder-Error")}
+}
+
+// rejection returns the upstream proxy's reply of a connect case when it is a rejection whose head
+// reaches the proxy completely (the case of the CONNECT-rejection relay).
+func (c *Case) rejection() (parsedReply, bool) {
+	if c.Kind != "connect" || c.Fault == "stall" {
+		return parsedReply{}, false
+	}
+	pr := parseReply(core.MustUnHex(orEmpty(c.ReplyHex)))
+	if pr.ok && pr.status/100 != 2 && (c.CK < 0 || c.CK >= pr.headLen) {
+		return pr, true
+	}
+	return parsedReply{}, false
+}
+
+// transportRejection: the rejected CONNECT is the proxy transport's own (GET https:// or a request
+// inside an intercepted session through the upstream proxy) — the path repaired for F12.
+func (c *Case) transportRejection() (parsedReply, bool) {
+	if c.Via != "https" && c.Via != "mitm" {
+		return parsedReply{}, false
+	}
+	return c.rejection()
+}
+
+// responseRules are the --response-header rules of the proxy instance a case goes through.
+func (c *Case) responseRules() []string {
+	if c.Upstream == "up" {
+		return upResponseRules
+	}
+	return nil
+}
+
+func rulesTok(rules []string) string {
+	var hx []string
+	for _, r := range rules {
+		hx = append(hx, core.HexS(r))
+	}
+	return core.JoinList(hx)
 }
 
 // faults returns the fault tokens the observation may correspond to: the intended one first, then,
@@ -250,7 +295,7 @@ func look(c *Case, o *Obs, method string) *seen {
 	case err == rig.ErrIncomplete || !res.Complete:
 		s.kind = "prefix"
 		s.obsTok = fmt.Sprintf("prefix %d %s %d 0 %s", idn, frTok(res), len(res.Body), closeTok)
-	case s.hasXFE:
+	case s.hasXFE && !relaysUpstreamXFE(c, res):
 		s.kind = "error"
 		s.obsTok = fmt.Sprintf("error %d %d _ %s", idn, res.Status, core.B01(s.ka))
 	case c.Kind == "connect" || (c.Kind != "cut" && c.Kind != "malformed"):
@@ -274,6 +319,16 @@ func look(c *Case, o *Obs, method string) *seen {
 		}
 	}
 	return s
+}
+
+// relaysUpstreamXFE reports whether the X-Forwarder-Error of a response is the upstream proxy's own
+// (an upstream forwarder marks its rejections too), passed through by the relay — not forwarder's.
+func relaysUpstreamXFE(c *Case, res *rig.Msg) bool {
+	pr, ok := c.rejection()
+	if !ok || len(pr.xfe) == 0 {
+		return false
+	}
+	return strings.Join(res.Values("X-Forwarder-Error"), "\x00") == strings.Join(pr.xfe, "\x00")
 }
 
 // sameObs compares the model's observation with the client's, ignoring what the client cannot see
@@ -304,6 +359,7 @@ const (
 	clauseCounter  = "after 5 consecutive failed exchanges the connection is closed"
 	clauseHostile  = "hostile client bytes yield well-formed responses or a close"
 	clauseLabel    = "errorResponse label = Model.C12.classify"
+	clauseRelay    = "a relayed CONNECT rejection is a well-formed answer to the client's request: its protocol version, Connection: close as it asked"
 )
 
 var hostIDRe = regexp.MustCompile(`\b(c[0-9]+|w[0-9]+|r[0-9]+)\.[a-z-]+\.test`)
@@ -365,10 +421,6 @@ func (c *Case) input() []byte {
 // knownClass decides the known-finding class from the input alone.
 func knownClass(c *Case) string {
 	switch c.Kind {
-	case "client":
-		if !(c.Raw && c.Via == "tls") && nonUTF8Host(c.input()) {
-			return "non-utf8-host" // F35
-		}
 	case "cut":
 		if c.Framing == "chunked" && c.ReqMinor == 0 && c.K >= len(c.head()) {
 			if _, term := c.payloadIn(c.K - len(c.head())); !term {
@@ -382,14 +434,7 @@ func knownClass(c *Case) string {
 		}
 	case "connect":
 		if c.Via == "connect" && c.Fault == "stall" {
-			return "connect-reply-timeout" // F27
-		}
-		if (c.Via == "https" || c.Via == "mitm") && c.Fault != "stall" {
-			reply := core.MustUnHex(orEmpty(c.ReplyHex))
-			pr := parseReply(reply)
-			if pr.ok && pr.status/100 != 2 && (c.CK < 0 || c.CK >= pr.headLen) {
-				return "connect-rejection-via-transport" // F12
-			}
+			return "connect-reply-timeout" // F34
 		}
 	case "tls", "label":
 		if c.Kind == "label" && c.What != "tls" {
@@ -397,7 +442,7 @@ func knownClass(c *Case) string {
 		}
 		switch c.Fault {
 		case "garbage", "closed", "stall":
-			return "tls-failure-untyped" // F26
+			return "tls-failure-untyped" // F33
 		}
 	}
 	return ""
@@ -477,6 +522,10 @@ func judgeFault(ctx *core.Ctx, c *Case, o *Obs) {
 		ctx.Count("cut/" + c.Framing + "/" + where + map[bool]string{true: "/rst", false: "/fin"}[c.Reset])
 	} else if c.Fault != "" {
 		ctx.Count(c.Kind + "/" + c.Fault)
+	}
+	if _, ok := c.transportRejection(); ok {
+		// regression target (F12, repaired): how often the run exercises the relay of a transport-level rejection
+		ctx.Count(fmt.Sprintf("connect/transport-rejection/%s/minor=%d/close=%s", c.Via, c.ReqMinor, core.B01(c.reqClose())))
 	}
 	if o.Setup != "" {
 		ctx.SpecFail(clauseServing, "", c, impl, "the client could not reach the point of sending its request: "+o.Setup)
@@ -584,6 +633,7 @@ func judgeFault(ctx *core.Ctx, c *Case, o *Obs) {
 		}
 		if s.kind == "relayed" {
 			checkStatus(ctx, c, s, fail)
+			checkRelay(ctx, c, s, fail)
 		}
 		// a fault that precedes the head must not produce an unmarked 2xx/5xx of the proxy's own
 		if !skipModel && c.Kind != "connect" && c.Kind != "cut" {
@@ -644,12 +694,26 @@ func checkErrorShape(ctx *core.Ctx, c *Case, s *seen, fail func(clause, detail s
 		minor = 0
 	}
 	ans := ctx.Model.MustAsk("C12", "errresp", "name="+core.HexS(name), "minor="+core.Itoa(minor), "close="+core.B01(c.reqClose()),
-		"connect="+core.B01(c.Via == "connect"), "status="+core.Itoa(res.Status), "msg="+core.HexS(msg), "err="+core.HexS(errText))
-	f := strings.Fields(ans) // status minor keepAlive declared bodyLen fieldmap
+		"connect="+core.B01(c.Via == "connect"), "rules="+rulesTok(c.responseRules()), "status="+core.Itoa(res.Status), "msg="+core.HexS(msg), "err="+core.HexS(errText))
+	diffs := wireDiffs(ans, res)
+	if len(diffs) > 0 {
+		ctx.Disagree("error response fields = Model.C12.writtenError", c, strings.Join(diffs, "; "), ans)
+	} else {
+		ctx.Count("error-shape/agrees")
+	}
+}
+
+// wireDiffs compares a response with the model's answer "<status> <minor> <keepAlive> <declared> <bodyLen> <fieldmap>":
+// every field, and the declared and actual body length.
+func wireDiffs(ans string, res *rig.Msg) []string {
+	f := strings.Fields(ans)
 	want := map[string][]string{}
 	for _, e := range core.SplitList2(f[5]) {
 		atoms := core.SplitList(e)
 		k := string(core.MustUnHex(atoms[0]))
+		if _, ok := want[k]; !ok {
+			want[k] = nil
+		}
 		for _, a := range atoms[1:] {
 			want[k] = append(want[k], string(core.MustUnHex(a)))
 		}
@@ -669,10 +733,74 @@ func checkErrorShape(ctx *core.Ctx, c *Case, s *seen, fail func(clause, detail s
 	if f[3] != strconv.Itoa(len(res.Body)) || f[4] != strconv.Itoa(len(res.Body)) {
 		diffs = append(diffs, fmt.Sprintf("declared/body length: model %s/%s, body has %d", f[3], f[4], len(res.Body)))
 	}
+	sort.Strings(diffs)
+	return diffs
+}
+
+// checkRelay judges the relayed rejection of a transport-level CONNECT (GET https:// or a request in an
+// intercepted session through the upstream proxy): it answers the CLIENT's request. Evaluated directly —
+// protocol version of the request, "Connection: close" exactly when the request asked for it, the
+// connection kept otherwise — and compared field by field with Model.C12.writtenRelay (the upstream
+// proxy's fields incl. its own X-Forwarder-Error if it sent one, the proxy's response rules applied,
+// Content-Length = the body OnProxyConnectResponse could read).
+func checkRelay(ctx *core.Ctx, c *Case, s *seen, fail func(clause, detail string)) {
+	pr, ok := c.transportRejection()
+	if !ok {
+		return
+	}
+	res := s.res
+	line := strconv.Quote(strings.SplitN(string(res.HeadBytes), "\r\n", 2)[0])
+	if want := fmt.Sprintf("HTTP/1.%d", c.ReqMinor); res.Proto != want {
+		fail(clauseRelay, fmt.Sprintf("status line %s, the request was %s", line, want))
+	}
+	closeTok := false
+	for _, v := range res.Values("Connection") {
+		for _, t := range strings.Split(v, ",") {
+			if strings.EqualFold(strings.TrimSpace(t), "close") {
+				closeTok = true
+			}
+		}
+	}
+	if closeTok != c.reqClose() {
+		fail(clauseRelay, fmt.Sprintf("Connection: close present=%v, the request asked for close=%v (%s)", closeTok, c.reqClose(), line))
+	}
+	if c.reqClose() && s.ka {
+		fail(clauseRelay, "the connection is kept although the request asked for close")
+	}
+	if res.Status == 204 || res.Status == 304 || res.Status/100 == 1 {
+		return // header-only statuses: written by another routine than the one modelled
+	}
+	// the body OnProxyConnectResponse could read: all of it, or none when the reply was torn / announced none
+	body := []byte{}
+	if pr.declLen > 0 && (c.CK < 0 || c.CK >= pr.headLen+int(pr.declLen)) {
+		body = pr.body
+		if int64(len(body)) > pr.declLen {
+			body = body[:pr.declLen]
+		}
+	}
+	var keys []string
+	for k := range pr.header {
+		keys = append(keys, k)
+	}
+	sort.Strings(keys)
+	var ents []string
+	for _, k := range keys {
+		atoms := []string{core.HexS(k)}
+		for _, v := range pr.header[k] {
+			atoms = append(atoms, core.HexS(v))
+		}
+		ents = append(ents, core.JoinList(atoms))
+	}
+	ans := ctx.Model.MustAsk("C12", "relayresp", "minor="+core.Itoa(c.ReqMinor), "close="+core.B01(c.reqClose()), "rules="+rulesTok(c.responseRules()),
+		"status="+core.Itoa(pr.status), "hdr="+core.JoinList2(ents), "body="+core.Hex(body))
+	diffs := wireDiffs(ans, res)
+	if mf := strings.Fields(ans); mf[0] != strconv.Itoa(res.Status) || "HTTP/1."+mf[1] != res.Proto {
+		diffs = append(diffs, fmt.Sprintf("status line: got %s %d, model HTTP/1.%s %s", res.Proto, res.Status, mf[1], mf[0]))
+	}
 	if len(diffs) > 0 {
-		ctx.Disagree("error response fields = Model.C12.writtenError", c, strings.Join(diffs, "; "), ans)
+		ctx.Disagree("relayed rejection fields = Model.C12.writtenRelay", c, strings.Join(diffs, "; "), ans)
 	} else {
-		ctx.Count("error-shape/agrees")
+		ctx.Count("relay-shape/agrees")
 	}
 }
 
@@ -711,6 +839,10 @@ func checkStatus(ctx *core.Ctx, c *Case, s *seen, fail func(clause, detail strin
 
 func judgeClient(ctx *core.Ctx, c *Case, o *Obs) {
 	ctx.Count("client/" + c.Via + "/" + c.What)
+	if !(c.Raw && c.Via == "tls") && nonUTF8Host(c.input()) {
+		// regression target (F35, repaired): the host reaches the dialer's metric labels
+		ctx.Count("client/non-utf8-host/" + c.Via)
+	}
 	impl := describeObs(o)
 	if o.Setup != "" {
 		ctx.SpecFail(clauseServing, "", c, impl, "a well-behaved preamble (TLS handshake / CONNECT for interception) failed: "+o.Setup)
